@@ -320,4 +320,100 @@ theorem avroReadVarint_spec (bs : List Nat) (hb : ∀ b ∈ bs, b < 256) : avroR
         | none => rfl
         | some r => obtain ⟨v, n⟩ := r; simp
 
+theorem pow7k (k : Nat) : 2 ^ (7 * (k + 1)) = 128 * 2 ^ (7 * k) := by
+  rw [Nat.mul_add, Nat.mul_one]; exact pow7 _
+
+theorem vlqLong_spec : ∀ (bs : List Nat) (k ip sh : Nat), sh = 7 * k → k ≤ 9 → ip < 2 ^ (7 * k) →
+    match uleb bs with
+    | some (v, n) =>
+      vlqLong ⟨ip, sh⟩ bs =
+        if k + n ≤ 10 ∧ ip + v * 2 ^ (7 * k) < 2 ^ 64 then .value (zigzagInt (ip + v * 2 ^ (7 * k))) (bs.drop n)
+        else .error (bs.drop (9 - k))
+    | none =>
+      if 10 ≤ k + bs.length then vlqLong ⟨ip, sh⟩ bs = .error (bs.drop (9 - k))
+      else ∃ st, vlqLong ⟨ip, sh⟩ bs = .pending st := by
+  intro bs
+  induction bs with
+  | nil => intro k ip sh _ hk _; simp [uleb, vlqLong]; omega
+  | cons b bs ih =>
+    intro k ip sh hsh hk hip
+    subst hsh
+    have hp : b % 128 < 128 := Nat.mod_lt _ (by decide)
+    have hs : 7 * k ≤ 63 := by omega
+    have hip64 : ip < 2 ^ 64 := Nat.lt_of_lt_of_le hip (Nat.pow_le_pow_right (by decide) (by omega))
+    simp only [uleb, vlqLong, AVRO_STREAM_LAST_SHIFT, AVRO_STREAM_LAST_LIMIT, AVRO_STREAM_SHIFT_STEP]
+    rw [shl64_eq_wshl64 _ _ (show 7 * k < 64 by omega)]
+    by_cases hk9 : k = 9
+    · subst hk9
+      by_cases hb2 : b ≥ 2
+      · have hc : (7 * 9 = 63 ∧ b ≥ 2) := ⟨rfl, hb2⟩
+        simp only [hc, if_true]
+        by_cases hb : b < 128
+        · simp only [hb, if_true]
+          have : ¬ (ip + b * 2 ^ (7 * 9) < 2 ^ 64) := by
+            have : 2 * 2 ^ (7 * 9) ≤ b * 2 ^ (7 * 9) := Nat.mul_le_mul_right _ hb2
+            omega
+          simp [this]
+        · simp only [hb, if_false]
+          cases hu : uleb bs with
+          | none => simp [show 10 ≤ 9 + (bs.length + 1) by omega]
+          | some r =>
+            obtain ⟨v', n'⟩ := r
+            have := (uleb_bound _ _ _ hu).2.1
+            have : ¬ (9 + (n' + 1) ≤ 10) := by omega
+            simp [this]
+      · have hc : ¬ (7 * 9 = 63 ∧ b ≥ 2) := fun h => hb2 h.2
+        have hb : b < 128 := by omega
+        simp only [hc, hb, if_true, if_false]
+        rw [Nat.mod_eq_of_lt hb]
+        have hb01 : b = 0 ∨ b = 1 := by omega
+        have hfit : ip + b * 2 ^ (7 * 9) < 2 ^ 64 := by rcases hb01 with rfl | rfl <;> omega
+        rw [step_eq _ _ _ hip hs (by omega)]
+        simp [hfit]; omega
+    · have hk8 : k ≤ 8 := by omega
+      have hc : ¬ (7 * k = 63 ∧ b ≥ 2) := fun h => by omega
+      simp only [hc, if_false]
+      have h2 : 2 ^ (7 * (k + 1)) ≤ 2 ^ 63 := Nat.pow_le_pow_right (by decide) (by omega)
+      have e7 := pow7k k
+      have hfit : b % 128 * 2 ^ (7 * k) < 2 ^ 64 := by
+        have h1 : b % 128 * 2 ^ (7 * k) ≤ 127 * 2 ^ (7 * k) := Nat.mul_le_mul_right _ (by omega)
+        omega
+      have hse := step_eq ip (b % 128) (7 * k) hip hs hfit
+      have hlt := (step_lt ip (b % 128) (7 * k) hip hip64 hp).1
+      rw [hse] at hlt ⊢
+      by_cases hb : b < 128
+      · simp only [hb, if_true]
+        rw [Nat.mod_eq_of_lt hb] at hlt ⊢
+        have : ip + b * 2 ^ (7 * k) < 2 ^ 64 := by
+          have : 2 ^ (7 * k + 7) = 2 ^ (7 * (k + 1)) := by congr 1
+          omega
+        simp [this]; omega
+      · simp only [hb, if_false]
+        have ih' := ih (k + 1) (ip + b % 128 * 2 ^ (7 * k)) (7 * k + 7) (by omega) (by omega)
+          (by have : 2 ^ (7 * k + 7) = 2 ^ (7 * (k + 1)) := by congr 1
+              omega)
+        cases hu : uleb bs with
+        | none =>
+          simp only [hu] at ih' ⊢
+          have e1 : (b :: bs).length = bs.length + 1 := rfl
+          have e2 : (b :: bs).drop (9 - k) = bs.drop (9 - (k + 1)) := by
+            have : 9 - k = (9 - (k + 1)) + 1 := by omega
+            rw [this]; rfl
+          rw [e1, e2]
+          have e3 : (10 ≤ k + (bs.length + 1)) = (10 ≤ k + 1 + bs.length) := by
+            apply propext; constructor <;> intro h <;> omega
+          simp only [e3]; exact ih'
+        | some r =>
+          obtain ⟨v', n'⟩ := r
+          simp only [hu] at ih' ⊢
+          rw [ih']
+          have hexp : (b % 128 + 128 * v') * 2 ^ (7 * k) = b % 128 * 2 ^ (7 * k) + v' * 2 ^ (7 * (k + 1)) := by
+            rw [e7, Nat.add_mul]; congr 1; rw [Nat.mul_comm 128 v', Nat.mul_assoc]
+          have e2 : (b :: bs).drop (9 - k) = bs.drop (9 - (k + 1)) := by
+            have : 9 - k = (9 - (k + 1)) + 1 := by omega
+            rw [this]; rfl
+          have e4 : (b :: bs).drop (n' + 1) = bs.drop n' := rfl
+          rw [hexp, e2, e4]
+          simp only [Nat.add_assoc, Nat.add_comm 1 n']
+
 end ArrowModel.C08
